@@ -1,6 +1,8 @@
 package main
 
 import (
+	"unicode/utf8"
+	"unicode"
 	"crypto/sha256"
 	"crypto/sha512"
 	"errors"
@@ -240,6 +242,30 @@ func genC09(g *G) {
 		emitParse(sp + "abandon" + sp + sp + "ability" + sp)
 		emitParse(sp)
 	}
+	// non-space code points whose compatibility decomposition CONTAINS white space (U+00A8, U+00B4, U+037A, U+309B, U+FDFA, …):
+	// normalizing before or after splitting differs exactly on these. Computed from x/text's tables.
+	var hidden []string
+	for r := rune(0x80); r <= 0x10FFFF; r++ {
+		if (r >= 0xD800 && r < 0xE000) || unicode.IsSpace(r) {
+			continue
+		}
+		if d := norm.NFKD.String(string(r)); len(d) != utf8.RuneLen(r) || d != string(r) {
+			for _, x := range d {
+				if unicode.IsSpace(x) {
+					hidden = append(hidden, string(r))
+					break
+				}
+			}
+		}
+	}
+	for i, hc := range hidden {
+		if !g.thorough && i%4 != int(g.r.next()%4) {
+			continue
+		}
+		emitParse("abandon" + hc + "ability")
+		emitParse("zoo " + hc + " zoo" + hc)
+	}
+	nonspaces = append(nonspaces, hidden...)
 	words := []string{"abandon", "zoo", "\u3042\u3044\u3053\u304f\u3057\u3093", "\u30ac", "\uff76\uff9e", "\u00e9", "e\u0301", "\ufb01", "x", "\xff", "\xe2\x80", "\uff71", "\u3300"}
 	m := 300
 	if g.thorough {
